@@ -84,10 +84,10 @@ def _create_new_header(
 
     # Verify that the result contains all ReuseInfo.
     new_reuse_info = extract_reuse_info(result)
-    if (
-        reuse_info.copyright_lines != new_reuse_info.copyright_lines
-        and reuse_info.spdx_expressions != new_reuse_info.spdx_expressions
-    ):
+    # Compare the expressions as rendered: they may be given as strings.
+    if reuse_info.copyright_lines != new_reuse_info.copyright_lines or set(
+        map(str, reuse_info.spdx_expressions)
+    ) != set(map(str, new_reuse_info.spdx_expressions)):
         _LOGGER.debug(
             _(
                 "generated comment is missing copyright lines or license"
